@@ -14,15 +14,20 @@
    Files are modelled as sequences of <<agent, stream>>; the comparison is per file.            *)
 EXTENDS Integers, Sequences, FiniteSets, TLC, Json, SequencesExt
 
-CONSTANTS N, Graphs, WorkerVals, LimitVals, SizeVals,
+CONSTANTS N, Graphs, WorkerVals, LimitVals, SizeVals, KillVals,
           DropUnpicked,      \* TRUE: model of a driver that silently drops unselected tasks
           RetryFailsWhenTooBig  \* TRUE: a record larger than the limit aborts the batch
 
 Streams == <<"t1", "t2", "t4", "apply">>
 StageOrd(s) == CASE s = "t1" -> 1 [] s = "t2" -> 2 [] s = "t4" -> 4 [] s = "apply" -> 5 [] OTHER -> 99
 
-VARIABLES gsets, workers, limit, size, out
-vars == <<gsets, workers, limit, size, out>>
+VARIABLES gsets, workers, limit, size, kill, out
+vars == <<gsets, workers, limit, size, kill, out>>
+
+\* kill switch (t4.enabled = false): a turn stops after T2 - no T4 record, no apply, no apply record, the version and the
+\* store stay as they are - in the plain loop and therefore in the batch driver as well
+CompStreams == IF kill THEN <<"t1", "t2">> ELSE <<"t1", "t2", "t4">>
+NC == Len(CompStreams)
 
 Tasks == 1..N
 Disjoint(a, b) == gsets[a] \cap gsets[b] = {}
@@ -42,8 +47,8 @@ Batches(rem) == IF rem = <<>> THEN <<>>
                      IF DropUnpicked THEN <<b>> ELSE <<b>> \o Batches(SeqMinus(rem, b))
 
 \* staging of one batch: records arrive as  t1 t2 t4 per agent (compute), then apply per agent (commit)
-Arrivals(b) == LET comp == [i \in 1..(3 * Len(b)) |-> <<b[((i - 1) \div 3) + 1], Streams[((i - 1) % 3) + 1]>>]
-                   comm == [i \in 1..Len(b) |-> <<b[i], "apply">>]
+Arrivals(b) == LET comp == [i \in 1..(NC * Len(b)) |-> <<b[((i - 1) \div NC) + 1], CompStreams[((i - 1) % NC) + 1]>>]
+                   comm == IF kill THEN <<>> ELSE [i \in 1..Len(b) |-> <<b[i], "apply">>]
                IN comp \o comm
 Sz(r) == size[r[2]]
 \* key order inside one drain: stage order, then arrival
@@ -67,12 +72,13 @@ RunBatches(bs, acc) ==
          ELSE RunBatches(Tail(bs), [ok |-> TRUE, lines |-> acc.lines \o r.lines, results |-> acc.results \o Head(bs)])
 Driver == RunBatches(Batches([i \in 1..N |-> i]), [ok |-> TRUE, lines |-> <<>>, results |-> <<>>])
 
-Loop == [lines |-> [i \in 1..(4 * N) |-> <<((i - 1) \div 4) + 1, Streams[((i - 1) % 4) + 1]>>],
+LoopStreams == IF kill THEN CompStreams ELSE Streams
+Loop == [lines |-> [i \in 1..(Len(LoopStreams) * N) |-> <<((i - 1) \div Len(LoopStreams)) + 1, LoopStreams[((i - 1) % Len(LoopStreams)) + 1]>>],
          results |-> [i \in 1..N |-> i]]
 File(lines, s) == SelectSeq(lines, LAMBDA r : r[2] = s)
 
 Init == /\ gsets \in [Tasks -> SUBSET Graphs] /\ workers \in WorkerVals /\ limit \in LimitVals
-        /\ size \in [{"t1", "t2", "t4", "apply"} -> SizeVals]
+        /\ size \in [{"t1", "t2", "t4", "apply"} -> SizeVals] /\ kill \in KillVals
         /\ out = Driver
 Next == FALSE
 Spec == Init /\ [][Next]_vars
@@ -86,7 +92,9 @@ OverlapNeverSameBatch == \A bi \in 1..Len(Batches([i \in 1..N |-> i])) :
     /\ Len(b) <= workers
     /\ \A x, y \in 1..Len(b) : x # y => Disjoint(b[x], b[y])
 
-EmitCase == PrintT(<<"T", ToJson([gsets |-> gsets, workers |-> workers, limit |-> limit, size |-> size, disjoint |-> PairwiseDisjoint,
+KillSwitchInert == kill => (File(out.lines, "t4") = <<>> /\ File(out.lines, "apply") = <<>>)
+
+EmitCase == PrintT(<<"T", ToJson([gsets |-> gsets, workers |-> workers, limit |-> limit, size |-> size, kill |-> kill, disjoint |-> PairwiseDisjoint,
                                   batches |-> Batches([i \in 1..N |-> i]), ok |-> out.ok, results |-> out.results,
                                   files |-> [s \in {"t1", "t2", "t4", "apply"} |-> File(out.lines, s)]])>>)
 =============================================================================
